@@ -1,6 +1,9 @@
 package main
 
 import (
+	"os"
+	"runtime/pprof"
+
 	"verif/engine/hmain"
 )
 
@@ -9,4 +12,15 @@ import (
 
 var props = map[string]hmain.Prop{}
 
-func main() { hmain.Main(props) }
+var stopProfile = func() {}
+
+func main() {
+	// debugging aid only: KVSEQ_CPUPROFILE=<file> writes a CPU profile of the parent process
+	if p := os.Getenv("KVSEQ_CPUPROFILE"); p != "" && os.Getenv("VERIF_WORKER") == "" {
+		if f, err := os.Create(p); err == nil {
+			pprof.StartCPUProfile(f)
+			stopProfile = func() { pprof.StopCPUProfile(); f.Close() }
+		}
+	}
+	hmain.Main(props)
+}
